@@ -163,6 +163,45 @@ def run(ctx):
                 ctx.add_failing("zhit-depends-on-num_procs", {"options": opts, "num_procs": n, "winner": zsig(r)[:4], "reference": sigs[0][:4]}, observed="differs", expected="identical",
                                 clause="the result does not depend on the number of worker processes")
 
+    # ---- Z-HIT in the admittance representation on data the analysis shifts along the real axis (Re(Y) < 0 somewhere)
+    d8 = generate_mock_data("CIRCUIT_8", noise=5e-2, seed=11)[0]
+    d8 = DataSet(d8.get_frequencies()[::step], d8.get_impedances()[::step], label="c17-negY")
+    sig8 = []
+    for n in ([1, 1, 2, 4] if big else [1, 1, 2]):
+        try:
+            sig8.append(zsig(perform_zhit(d8, admittance=True, num_procs=n)))
+        except Exception as x:  # noqa
+            sig8.append(("raised", type(x).__name__))
+        ctx.note_case(("zhit-negY", "procs", n))
+    ctx.count("zhit:shifted-admittance-data")
+    if len(set(sig8)) != 1:
+        ctx.add_failing("zhit-depends-on-num_procs", {"data": "CIRCUIT_8 (negative Re Y), admittance=True", "num_procs": [1, 1, 2, 4][:len(sig8)], "winners": [s_[:4] for s_ in sig8]},
+                        observed="differs", expected="identical", clause="the result does not depend on the number of worker processes")
+
+    # ---- fit_circuit with constraint expressions and variables: serial vs parallel, and the same call repeated with the caller's objects
+    import copy as _copy
+    from pyimpspec.analysis.fitting import generate_fit_identifiers
+    cc = parse_cdc("R{R=90}(R{R=200}C{C=2e-6})(R{R=450}C{C=3e-5})")
+    ids = generate_fit_identifiers(cc)
+    rs = [e for e in cc.get_elements(recursive=True) if e.get_symbol() == "R"]
+    cexpr = {ids[rs[2]].R: f"{ids[rs[1]].R} * ratio"}
+    cvars = {"ratio": dict(value=2.0, min=1e-3, max=1e3)}
+    cvars0 = _copy.deepcopy(cvars)
+    csig = []
+    for n in ([1, 1, 2, 4] if big else [1, 1, 2]):
+        try:
+            r = fit_circuit(cc, data, method=["least_squares", "powell", "leastsq"], weight=["boukamp", "modulus"], constraint_expressions=cexpr, constraint_variables=cvars, num_procs=n)
+            csig.append(fsig(r))
+        except Exception as x:  # noqa
+            csig.append(("raised", type(x).__name__, str(x)[:80]))
+        ctx.note_case(("fit-constrained", "procs", n))
+    ctx.count("fit:constrained")
+    if len(set(csig)) != 1:
+        ctx.add_failing("fit-depends-on-schedule", {"circuit": cc.to_string(3), "constraint_expressions": cexpr, "constraint_variables": cvars0, "num_procs": [1, 1, 2, 4][:len(csig)], "winners": [s_[:3] for s_ in csig]},
+                        observed="different results (or an error) for the same call", expected="identical", clause="a multi-method/multi-weight circuit fit selects the same winner serially and in parallel")
+    if cvars != cvars0:
+        ctx.add_failing("caller's-constraint-variables-modified", {"before": cvars0, "after": cvars}, observed=str(cvars), expected=str(cvars0), clause="repeating the same call gives the same result")
+
     # ---- fit_circuit: ordered collection
     circuit = parse_cdc("R(RC)(RW)")
     methods = ["leastsq", "least_squares", "powell", "nelder"] if not big else "auto"
